@@ -267,14 +267,15 @@ def trace_check(pid, tier, seed, scs, mc_stats=None, extra_cov=None, t0=None, ex
     returns exit code"""
     t0 = t0 or time.time()
     known = load_known()
-    # every open known finding of this property is re-run from its committed replay file, so the
-    # KNOWN-FINDING line is printed exactly as long as the defect is still there
+    # every known finding of this property that has a committed replay file is re-run from it: an open
+    # one prints its KNOWN-FINDING line exactly as long as the defect is still there, a repaired one is
+    # an ordinary scenario (it suppresses nothing: if the defect returns it is a VIOLATION)
     scs = list(scs)
     for k in known:
-        if k.get("status") == "open" and k["property"] == pid and k.get("replay") and os.path.exists(k["replay"]):
+        if k["property"] == pid and k.get("replay") and os.path.exists(k["replay"]):
             ksc = sc_from_json(json.load(open(k["replay"]))["scenario"])
             ksc["id"] = "known/" + k["id"]
-            if "class" in k["match"]:
+            if k.get("status") == "open" and "class" in k["match"]:
                 ksc["class"] = k["match"]["class"]
             scs.append(ksc)
     traces, results, st = run_traces(pid, scs)
